@@ -11,6 +11,7 @@ same digests, the same final state and an empty event queue.  Tie, reader:
 kernel structures printed to trace files and parsed by the real tracereader,
 compared with the model's parse (module c20_trace)."""
 import json, os, sys, collections, importlib.util
+from concurrent.futures import ThreadPoolExecutor
 sys.path.insert(0, os.path.dirname(os.path.dirname(os.path.abspath(__file__))))
 import vlib
 
@@ -179,13 +180,13 @@ def main(argv):
         return rep.finish()
 
     ok, log = vlib.coq_build(COQ_TARGETS)
-    okp, plog, thms = vlib.coq_check_props(PROP) if ok else (False, log, [])
-    if not (ok and okp):
+    if not ok:
         rep.obligation('coq build', False)
-        rep.violation({'broken': 'Coq development for C20 does not compile', 'log': (log + plog)[-4000:]}, nofail=True)
+        rep.violation({'broken': 'Coq development for C20 does not compile', 'log': log[-4000:]}, nofail=True)
         return rep.finish()
-    for name, axioms in thms:
-        rep.obligation('theorem ' + name + (' [axioms: %s]' % ', '.join(axioms) if axioms else ' [closed under the global context]'), True)
+    # Print Assumptions of props/C20.v is collected while the harness and the model evaluations run
+    pool = ThreadPoolExecutor(max_workers=3)
+    props_future = pool.submit(vlib.coq_check_props, PROP)
 
     # ---- inputs
     sim_cases, trace_cases = [], []
@@ -229,13 +230,18 @@ def main(argv):
     trace_known = [(i, v[1]) for i, v in enumerate(tv) if v and v[0] == 'known']
 
     # ---- the models on the same inputs
-    ok1, mism1, log1 = (True, [], '')
-    if sim_cases:
-        ok1, mism1, log1 = vlib.eval_cases(PROP, HEADER, [c['coq'] for c in sim_cases], shard_size=6)
+    f1 = pool.submit(vlib.eval_cases, PROP, HEADER, [c['coq'] for c in sim_cases], 5) if sim_cases else None
+    f2 = pool.submit(vlib.eval_cases, PROP + 'T', T.HEADER, T.coq_terms(trace_cases), 30, T.CHECKER) if trace_cases else None
+    okp, plog, thms = props_future.result()
+    if not okp:
+        rep.obligation('coq build', False)
+        rep.violation({'broken': 'coq/props/C20.v does not compile', 'log': plog[-4000:]}, nofail=True)
+        return rep.finish()
+    for name, axioms in thms:
+        rep.obligation('theorem ' + name + (' [axioms: %s]' % ', '.join(axioms) if axioms else ' [closed under the global context]'), True)
+    ok1, mism1, log1 = f1.result() if f1 else (True, [], '')
     rep.obligation('correspondence: %d runs of the real platform replayed event by event in the model' % len(sim_cases), ok1 and not mism1)
-    ok2, mism2, log2 = (True, [], '')
-    if trace_cases:
-        ok2, mism2, log2 = vlib.eval_cases(PROP + 'T', T.HEADER, T.coq_terms(trace_cases), shard_size=40, checker=T.CHECKER)
+    ok2, mism2, log2 = f2.result() if f2 else (True, [], '')
     rep.obligation('correspondence: %d trace files parsed by the real reader and by the model' % len(trace_cases), ok2 and not mism2)
 
     ev_hist = collections.Counter()
